@@ -189,6 +189,17 @@ SingleBodies ==
             SeqE("of", <<SuppressE(AnyE(<<SeqE("of", <<A, Bt>>), Ref(2)>>)), Opt(Bt)>>)}
   IN {<<x, y>> : x \in p, y \in q}
 
+\* left recursion that passes through trims (the counters survive a change of position caused by skipped whitespace)
+TrimLR ==
+  LET core == AnyE(<<SeqE("of", <<Ref(1), Bt>>), A>>)
+      modes == {"spaces", "nl", "none"}
+  IN {<<LTrim(core, m)>> : m \in modes} \cup {<<RTrim(core, m)>> : m \in {"spaces", "nl"}} \cup
+     {<<AnyE(<<SeqE("of", <<LTrim(Ref(1), m), Bt>>), A>>)>> : m \in modes} \cup
+     {<<AnyE(<<SeqE("of", <<Ref(1), LTrim(Bt, m)>>), LTrim(A, m)>>)>> : m \in modes} \cup
+     {<<AnyE(<<SeqE("of", <<RTrim(Ref(1), m), Bt>>), RTrim(A, m)>>)>> : m \in {"spaces", "nl"}} \cup
+     {<<AnyE(<<SeqE("of", <<Opt(SPt), LTrim(Ref(1), "nl"), Bt>>), A>>)>>,
+      <<LTrim(AnyE(<<SeqE("of", <<Opt(X), Ref(1), Bt>>), A>>), "spaces")>>}
+
 \* two nonterminals: mutual and indirect left recursion
 F3Pairs ==
   LET at == {A, Bt, Ref(1), Ref(2), Opt(Ref(2))}
